@@ -1,4 +1,1014 @@
-//! gossipguard: not built yet.
-pub fn run(args: &vh_common::Args) {
-    vh_common::unknown(args)
+//! GossipGuard (C29): `Gossip::stream`, `GossipHandle`/`GossipSubscription` clone and drop of
+//! p2panda-net against spec/GossipGuard.
+//!
+//! The real `Gossip` API object is driven over a harness-owned probe actor that stands in for
+//! the gossip manager (a real ractor actor receiving `ToGossipManager`): it moves every
+//! `Subscribe` / `Unsubscribe` into a FIFO that the harness works off one message per
+//! `ActorStep`, with the manager's bookkeeping of manager.rs:186-288 (a `Subscribe` installs a
+//! new session for the topic without stopping an existing one, an `Unsubscribe` stops the
+//! installed one).
+//!
+//! Interleavings are forced with the schedule points of `p2panda_core::verif`: every `stream()`
+//! call runs in its own tokio task and parks at the named points until the harness releases it;
+//! a drop that has to be split (`FetchSub` / `SendUnsub`) runs on its own OS thread and parks at
+//! the blocking point inside `TopicDropGuard::drop`.
+//!
+//! `replay`: executes every behaviour exported by TLC, compares the implementation's observable
+//! after each step with the state TLC computed and evaluates the C29 predicates on the
+//! implementation's own state.  `record`: a seeded random scheduler drives the real code and
+//! writes one event per step for `Trace_GossipGuard.tla`.
+use std::cell::RefCell;
+use std::collections::{BTreeMap, BTreeSet, HashMap, VecDeque};
+use std::sync::{Arc, Condvar, Mutex, MutexGuard};
+use std::time::Duration;
+
+use p2panda_core::{SigningKey, Topic};
+use p2panda_net::AddressBook;
+use p2panda_net::gossip::{
+    Gossip, GossipConfig, GossipEvent, GossipHandle, GossipSubscription, ToGossipManager,
+};
+use ractor::{Actor, ActorProcessingErr, ActorRef, RpcReplyPort};
+use tokio::sync::{broadcast, mpsc, oneshot, watch};
+use vh_common::{Args, Outcome, Rng, TraceWriter, Value, json, read_ndjson, unknown};
+
+const POINT_A: &str = "gossip.stream.after_liveness_check";
+const POINT_W: &str = "gossip.stream.before_write_lock";
+const POINT_B: &str = "gossip.stream.after_new_guard";
+const POINT_C: &str = "gossip.stream.before_insert_senders";
+const POINT_DROP: &str = "gossip.guard.drop.after_fetch_sub";
+
+/// How long the harness waits for an event that the step just taken must produce. Only a
+/// failure detector ("the code is blocked where neither specification nor harness expect it");
+/// never part of a verdict about the property.
+const STUCK_AFTER: Duration = Duration::from_secs(30);
+
+type SubscribeReply = RpcReplyPort<(mpsc::Sender<Vec<u8>>, broadcast::Sender<Vec<u8>>)>;
+
+enum Mail {
+    Subscribe(SubscribeReply),
+    Unsubscribe,
+}
+
+#[derive(Default)]
+struct CtlState {
+    /// stream() tasks parked at a schedule point: process -> (point, release)
+    parked: HashMap<String, (String, oneshot::Sender<()>)>,
+    /// finished stream() calls
+    finished: HashMap<String, Result<GossipHandle, String>>,
+    /// messages received by the probe actor, in order of arrival
+    mailbox: VecDeque<Mail>,
+    /// total number of messages that ever arrived
+    arrived: u64,
+    /// drop threads parked inside `TopicDropGuard::drop`: handle -> released?
+    drop_parked: HashMap<String, bool>,
+    /// schedule points are ignored (used to wind a behaviour down)
+    free_run: bool,
+}
+
+struct Ctl {
+    st: Mutex<CtlState>,
+    cv: Condvar,
+    ver: watch::Sender<u64>,
+}
+
+impl Ctl {
+    fn lock(&self) -> MutexGuard<'_, CtlState> {
+        self.st.lock().unwrap_or_else(|e| e.into_inner())
+    }
+
+    fn bump(&self) {
+        self.ver.send_modify(|v| *v += 1);
+    }
+
+    /// Waits until `pred` holds. `Err` = stuck.
+    async fn wait_until(&self, what: &str, pred: impl Fn(&CtlState) -> bool) -> Result<(), String> {
+        let mut rx = self.ver.subscribe();
+        let deadline = tokio::time::Instant::now() + STUCK_AFTER;
+        loop {
+            if pred(&self.lock()) {
+                return Ok(());
+            }
+            match tokio::time::timeout_at(deadline, rx.changed()).await {
+                Ok(Ok(())) => {}
+                _ => {
+                    if pred(&self.lock()) {
+                        return Ok(());
+                    }
+                    return Err(format!("stuck waiting for: {what}"));
+                }
+            }
+        }
+    }
+}
+
+tokio::task_local! {
+    static PROC: String;
+}
+
+thread_local! {
+    static DROP_ID: RefCell<Option<String>> = const { RefCell::new(None) };
+}
+
+fn install_controllers(ctl: &Arc<Ctl>) {
+    let c = ctl.clone();
+    p2panda_core::verif::set_async_controller(Some(Arc::new(move |name: &'static str| {
+        let proc = PROC.try_with(|p| p.clone()).ok()?;
+        let (tx, rx) = oneshot::channel();
+        {
+            let mut st = c.lock();
+            if st.free_run {
+                return None;
+            }
+            st.parked.insert(proc, (name.to_string(), tx));
+        }
+        c.bump();
+        let parked: p2panda_core::verif::Parked = Box::pin(async move {
+            let _ = rx.await;
+        });
+        Some(parked)
+    })));
+    let c = ctl.clone();
+    p2panda_core::verif::set_blocking_controller(Some(Arc::new(move |name: &'static str| {
+        if name != POINT_DROP {
+            return;
+        }
+        let Some(id) = DROP_ID.with(|d| d.borrow().clone()) else {
+            return;
+        };
+        let mut st = c.lock();
+        if st.free_run {
+            return;
+        }
+        st.drop_parked.insert(id.clone(), false);
+        c.bump();
+        while !st.drop_parked.get(&id).copied().unwrap_or(true) && !st.free_run {
+            st = c.cv.wait(st).unwrap_or_else(|e| e.into_inner());
+        }
+        st.drop_parked.remove(&id);
+    })));
+}
+
+/// Stand-in for the gossip manager actor: forwards the two messages C29 is about.
+struct Probe;
+
+impl Actor for Probe {
+    type Msg = ToGossipManager;
+    type State = Arc<Ctl>;
+    type Arguments = Arc<Ctl>;
+
+    async fn pre_start(
+        &self,
+        _myself: ActorRef<Self::Msg>,
+        args: Self::Arguments,
+    ) -> Result<Self::State, ActorProcessingErr> {
+        Ok(args)
+    }
+
+    async fn handle(
+        &self,
+        _myself: ActorRef<Self::Msg>,
+        message: Self::Msg,
+        ctl: &mut Self::State,
+    ) -> Result<(), ActorProcessingErr> {
+        match message {
+            ToGossipManager::Subscribe(_topic, _nodes, reply) => {
+                let mut st = ctl.lock();
+                st.mailbox.push_back(Mail::Subscribe(reply));
+                st.arrived += 1;
+                drop(st);
+                ctl.bump();
+            }
+            ToGossipManager::Unsubscribe(_topic) => {
+                let mut st = ctl.lock();
+                st.mailbox.push_back(Mail::Unsubscribe);
+                st.arrived += 1;
+                drop(st);
+                ctl.bump();
+            }
+            ToGossipManager::Events(reply) => {
+                // used by the harness as a FIFO fence
+                let (tx, rx) = broadcast::channel::<GossipEvent>(1);
+                drop(tx);
+                let _ = reply.send(rx);
+            }
+            _ => {}
+        }
+        Ok(())
+    }
+}
+
+enum Held {
+    Handle(GossipHandle),
+    Subscription(GossipSubscription),
+}
+
+impl Held {
+    fn counter(&self) -> (usize, usize) {
+        match self {
+            Held::Handle(h) => h.verif_counter(),
+            Held::Subscription(s) => s.verif_counter(),
+        }
+    }
+}
+
+/// What the harness can see of the implementation after a step.
+#[derive(Debug, Clone, PartialEq)]
+struct Obs {
+    pc: BTreeMap<String, String>,
+    hst: BTreeMap<String, String>,
+    /// live handles: name -> (counter name, counter value)
+    live: BTreeMap<String, (String, usize)>,
+    /// `Err` = write-locked, `Ok(None)` = no entry, else (counter name, value)
+    senders: Result<Option<(String, usize)>, ()>,
+    mailbox: Vec<(String, String)>,
+    session: String,
+    orphans: BTreeSet<String>,
+}
+
+impl Obs {
+    fn to_json(&self) -> Value {
+        let senders = match &self.senders {
+            Err(()) => json!({"locked": true, "ctr": "none", "val": -1}),
+            Ok(None) => json!({"locked": false, "ctr": "none", "val": -1}),
+            Ok(Some((c, v))) => json!({"locked": false, "ctr": c, "val": v}),
+        };
+        json!({
+            "pc": self.pc,
+            "hst": self.hst,
+            "live": self.live.iter().map(|(h, (c, v))| (h.clone(), json!({"ctr": c, "val": v}))).collect::<BTreeMap<_, _>>(),
+            "senders": senders,
+            "mailbox": self.mailbox.iter().map(|(t, by)| json!({"t": t, "by": by})).collect::<Vec<_>>(),
+            "session": self.session,
+            "orphans": self.orphans,
+        })
+    }
+}
+
+struct World {
+    ctl: Arc<Ctl>,
+    topic: Topic,
+    gossip: Option<Gossip>,
+    actor: ActorRef<ToGossipManager>,
+    actor_join: Option<tokio::task::JoinHandle<()>>,
+    procs: Vec<String>,
+    clones: Vec<String>,
+    started: BTreeSet<String>,
+    /// stream() calls whose handle the harness has taken over
+    returned: BTreeSet<String>,
+    /// stream() calls that were seen at the point after `TopicDropGuard::new`
+    made_guard: BTreeSet<String>,
+    tasks: Vec<tokio::task::JoinHandle<()>>,
+    held: BTreeMap<String, Held>,
+    hst: BTreeMap<String, String>,
+    drop_threads: HashMap<String, std::thread::JoinHandle<()>>,
+    /// real counter identity -> name (the process whose slow path created it)
+    ctr_names: HashMap<usize, String>,
+    /// sender of each message in the FIFO, parallel to `CtlState::mailbox`
+    mail_by: VecDeque<String>,
+    /// probe manager state
+    session: Option<String>,
+    orphans: BTreeSet<String>,
+    /// channel ends handed out with Subscribe replies are kept alive
+    keep: Vec<mpsc::Receiver<Vec<u8>>>,
+    /// C29 predicates evaluated on the implementation's state: (signature, detail)
+    property_failures: Vec<(String, String)>,
+}
+
+fn pc_of_point(point: &str) -> String {
+    match point {
+        POINT_A => "atA".into(),
+        POINT_W => "atW".into(),
+        POINT_B => "atB".into(),
+        POINT_C => "atC".into(),
+        other => format!("parked:{other}"),
+    }
+}
+
+impl World {
+    async fn new(
+        ctl: &Arc<Ctl>,
+        address_book: &AddressBook,
+        procs: Vec<String>,
+        clones: Vec<String>,
+    ) -> World {
+        {
+            let mut st = ctl.lock();
+            *st = CtlState::default();
+        }
+        let (actor, actor_join) = Actor::spawn(None, Probe, ctl.clone())
+            .await
+            .expect("spawn probe actor");
+        let me = SigningKey::generate().verifying_key();
+        let gossip = Gossip::verif_new(
+            actor.clone(),
+            me,
+            address_book.clone(),
+            GossipConfig::default(),
+        );
+        let mut hst = BTreeMap::new();
+        for h in procs.iter().chain(clones.iter()) {
+            hst.insert(h.clone(), "none".to_string());
+        }
+        World {
+            ctl: ctl.clone(),
+            topic: Topic::from([7u8; 32]),
+            gossip: Some(gossip),
+            actor,
+            actor_join: Some(actor_join),
+            procs,
+            clones,
+            started: BTreeSet::new(),
+            returned: BTreeSet::new(),
+            made_guard: BTreeSet::new(),
+            tasks: Vec::new(),
+            held: BTreeMap::new(),
+            hst,
+            drop_threads: HashMap::new(),
+            ctr_names: HashMap::new(),
+            mail_by: VecDeque::new(),
+            session: None,
+            orphans: BTreeSet::new(),
+            keep: Vec::new(),
+            property_failures: Vec::new(),
+        }
+    }
+
+    fn gossip(&self) -> &Gossip {
+        self.gossip.as_ref().expect("gossip alive")
+    }
+
+    /// All messages sent to the probe so far have been moved into the FIFO.
+    async fn fence(&self) -> Result<(), String> {
+        let fut = async { ractor::call!(self.actor, ToGossipManager::Events) };
+        match tokio::time::timeout(STUCK_AFTER, fut).await {
+            Ok(Ok(_)) => Ok(()),
+            Ok(Err(e)) => Err(format!("probe actor call failed: {e}")),
+            Err(_) => Err("stuck waiting for: probe actor fence".into()),
+        }
+    }
+
+    /// Moves finished stream() calls into `held`, tags new mailbox entries with their sender,
+    /// and evaluates LeftOnlyAtZero on every Unsubscribe that arrived.
+    fn absorb(&mut self, actor: &str) {
+        let mut st = self.ctl.lock();
+        for (p, (point, _)) in st.parked.iter() {
+            if point == POINT_B {
+                self.made_guard.insert(p.clone());
+            }
+        }
+        let done: Vec<String> = st
+            .finished
+            .iter()
+            .filter(|(_, r)| r.is_ok())
+            .map(|(p, _)| p.clone())
+            .collect();
+        for p in done {
+            if let Some(Ok(h)) = st.finished.remove(&p) {
+                let (id, _) = h.verif_counter();
+                if self.made_guard.contains(&p) {
+                    // the slow path of p created this counter (an address may be reused)
+                    self.ctr_names.insert(id, p.clone());
+                }
+                self.held.insert(p.clone(), Held::Handle(h));
+                self.hst.insert(p.clone(), "live".into());
+                self.returned.insert(p);
+            }
+        }
+        while self.mail_by.len() < st.mailbox.len() {
+            let idx = self.mail_by.len();
+            let is_unsub = matches!(st.mailbox[idx], Mail::Unsubscribe);
+            self.mail_by.push_back(actor.to_string());
+            if is_unsub {
+                let live = self.hst.values().filter(|s| s.as_str() == "live").count();
+                if live > 0 {
+                    self.property_failures.push((
+                        "unsubscribe-while-handle-live".into(),
+                        format!(
+                            "an Unsubscribe was sent (by the drop of {actor}) while {live} handle(s) for the topic are live"
+                        ),
+                    ));
+                }
+            }
+        }
+    }
+
+    fn observe(&mut self) -> Obs {
+        let st = self.ctl.lock();
+        let mut pc = BTreeMap::new();
+        for p in &self.procs {
+            let v = if !self.started.contains(p) {
+                "idle".to_string()
+            } else if self.returned.contains(p) {
+                "returned".to_string()
+            } else if let Some((point, _)) = st.parked.get(p) {
+                pc_of_point(point)
+            } else if let Some(r) = st.finished.get(p) {
+                match r {
+                    Err(e) => format!("error:{e}"),
+                    Ok(_) => "returned".to_string(),
+                }
+            } else {
+                "waitReply".to_string()
+            };
+            pc.insert(p.clone(), v);
+        }
+        let mailbox: Vec<(String, String)> = st
+            .mailbox
+            .iter()
+            .zip(self.mail_by.iter())
+            .map(|(m, by)| {
+                (
+                    match m {
+                        Mail::Subscribe(_) => "Subscribe".to_string(),
+                        Mail::Unsubscribe => "Unsubscribe".to_string(),
+                    },
+                    by.clone(),
+                )
+            })
+            .collect();
+        drop(st);
+        let mut live = BTreeMap::new();
+        for (h, held) in &self.held {
+            let (id, val) = held.counter();
+            let name = self
+                .ctr_names
+                .get(&id)
+                .cloned()
+                .unwrap_or_else(|| format!("unknown:{id:x}"));
+            live.insert(h.clone(), (name, val));
+        }
+        let senders = match self.gossip().verif_senders_counter(self.topic) {
+            Err(()) => Err(()),
+            Ok(None) => Ok(None),
+            Ok(Some((id, val))) => Ok(Some((
+                self.ctr_names
+                    .get(&id)
+                    .cloned()
+                    .unwrap_or_else(|| format!("unknown:{id:x}")),
+                val,
+            ))),
+        };
+        Obs {
+            pc,
+            hst: self.hst.clone(),
+            live,
+            senders,
+            mailbox,
+            session: self.session.clone().unwrap_or_else(|| "none".into()),
+            orphans: self.orphans.clone(),
+        }
+    }
+
+    /// ReturnedHandleIsBacked on the implementation's state.
+    fn check_backed(&mut self, obs: &Obs) {
+        if obs.mailbox.is_empty() && !obs.live.is_empty() && obs.session == "none" {
+            let hs: Vec<&String> = obs.live.keys().collect();
+            self.property_failures.push((
+                "handle-without-subscription".into(),
+                format!(
+                    "handle(s) {hs:?} are live, the manager has worked off its mailbox and holds no subscription for the topic"
+                ),
+            ));
+        }
+    }
+
+    /// LeftAtZero at the end of a behaviour.
+    fn check_left(&mut self, obs: &Obs) {
+        let quiescent = obs.mailbox.is_empty()
+            && obs.live.is_empty()
+            && obs.pc.values().all(|v| v == "idle" || v == "returned")
+            && obs.hst.values().all(|v| v == "none" || v == "dropped");
+        if quiescent && (obs.session != "none" || !obs.orphans.is_empty()) {
+            self.property_failures.push((
+                "overlay-not-left".into(),
+                format!(
+                    "no handle is left but the manager still runs session {:?} / lost sessions {:?}",
+                    obs.session, obs.orphans
+                ),
+            ));
+        }
+    }
+
+    async fn wait_proc_settled(&self, p: &str, arrived_before: u64) -> Result<(), String> {
+        let p = p.to_string();
+        self.ctl
+            .wait_until(&format!("stream() of {p} to park, return or send Subscribe"), |st| {
+                st.parked.contains_key(&p) || st.finished.contains_key(&p) || st.arrived > arrived_before
+            })
+            .await
+    }
+
+    fn release(&self, p: &str, expect_point: &str) -> Result<(), String> {
+        let mut st = self.ctl.lock();
+        match st.parked.remove(p) {
+            Some((point, tx)) if point == expect_point => {
+                let _ = tx.send(());
+                Ok(())
+            }
+            Some((point, tx)) => {
+                let msg = format!("{p} is parked at {point}, not at {expect_point}");
+                st.parked.insert(p.to_string(), (point, tx));
+                Err(msg)
+            }
+            None => Err(format!("{p} is not parked at {expect_point}")),
+        }
+    }
+
+    /// Executes one step on the real code. `Err` = the step could not be taken as described.
+    async fn apply(&mut self, a: &str, p: &str, k: &str, split_drop: bool) -> Result<(), String> {
+        let arrived_before = self.ctl.lock().arrived;
+        match a {
+            "ReadSenders" => {
+                if self.started.contains(p) {
+                    return Err(format!("stream() of {p} already called"));
+                }
+                self.started.insert(p.to_string());
+                let gossip = self.gossip().clone();
+                let topic = self.topic;
+                let ctl = self.ctl.clone();
+                let name = p.to_string();
+                let task = tokio::spawn(PROC.scope(name.clone(), async move {
+                    let r = gossip.stream(topic).await.map_err(|e| e.to_string());
+                    ctl.lock().finished.insert(name, r);
+                    ctl.bump();
+                }));
+                self.tasks.push(task);
+                self.wait_proc_settled(p, arrived_before).await?;
+            }
+            "CloneGuard" => {
+                self.release(p, POINT_A)?;
+                self.wait_proc_settled(p, arrived_before).await?;
+            }
+            "AcquireWrite" => {
+                self.release(p, POINT_W)?;
+                self.wait_proc_settled(p, arrived_before).await?;
+            }
+            "CallSubscribe" => {
+                self.release(p, POINT_B)?;
+                self.wait_proc_settled(p, arrived_before).await?;
+            }
+            "InsertSenders" => {
+                self.release(p, POINT_C)?;
+                self.wait_proc_settled(p, arrived_before).await?;
+            }
+            "ActorStep" => {
+                let mail = self.ctl.lock().mailbox.pop_front();
+                let by = self.mail_by.pop_front();
+                match (mail, by) {
+                    (Some(Mail::Subscribe(reply)), Some(by)) => {
+                        // manager.rs:186-263
+                        if let Some(old) = self.session.replace(by.clone()) {
+                            self.orphans.insert(old);
+                        }
+                        let (to_tx, to_rx) = mpsc::channel(128);
+                        let (from_tx, _) = broadcast::channel(128);
+                        self.keep.push(to_rx);
+                        let _ = reply.send((to_tx, from_tx));
+                        self.wait_proc_settled(&by, u64::MAX).await?;
+                    }
+                    (Some(Mail::Unsubscribe), Some(_)) => {
+                        // manager.rs:265-288
+                        self.session = None;
+                    }
+                    _ => return Err("mailbox of the manager is empty".into()),
+                }
+            }
+            "CloneHandle" => {
+                let Some(Held::Handle(h)) = self.held.get(p) else {
+                    return Err(format!("{p} is not a live GossipHandle"));
+                };
+                // the last clone name is made with subscribe(), the others with clone()
+                let new = if self.clones.last().map(|l| l == k).unwrap_or(false) {
+                    Held::Subscription(h.subscribe())
+                } else {
+                    Held::Handle(h.clone())
+                };
+                self.held.insert(k.to_string(), new);
+                self.hst.insert(k.to_string(), "live".into());
+            }
+            "FetchSub" => {
+                let Some(held) = self.held.remove(p) else {
+                    return Err(format!("{p} is not a live handle"));
+                };
+                if split_drop {
+                    // fetch_sub returns the previous value: the drop sends Unsubscribe iff it was 1
+                    let (_, prev) = held.counter();
+                    let id = p.to_string();
+                    let th = std::thread::spawn(move || {
+                        DROP_ID.with(|d| *d.borrow_mut() = Some(id));
+                        drop(held);
+                    });
+                    self.drop_threads.insert(p.to_string(), th);
+                    let id = p.to_string();
+                    self.ctl
+                        .wait_until("drop to reach the point after fetch_sub", |st| {
+                            st.drop_parked.contains_key(&id)
+                        })
+                        .await?;
+                    if prev == 1 {
+                        self.hst.insert(p.to_string(), "fetched".into());
+                    } else {
+                        // the rest of this drop is local
+                        self.finish_drop(p)?;
+                    }
+                } else {
+                    drop(held);
+                    self.hst.insert(p.to_string(), "dropped".into());
+                }
+            }
+            "SendUnsub" => {
+                self.finish_drop(p)?;
+            }
+            other => return Err(format!("unknown action {other}")),
+        }
+        self.fence().await?;
+        self.absorb(if a == "ActorStep" { "" } else { p });
+        Ok(())
+    }
+
+    /// Lets a drop parked after fetch_sub run to its end.
+    fn finish_drop(&mut self, h: &str) -> Result<(), String> {
+        let Some(th) = self.drop_threads.remove(h) else {
+            return Err(format!("no drop of {h} in flight"));
+        };
+        {
+            let mut st = self.ctl.lock();
+            if let Some(flag) = st.drop_parked.get_mut(h) {
+                *flag = true;
+            }
+        }
+        self.ctl.cv.notify_all();
+        th.join().map_err(|_| "drop thread panicked".to_string())?;
+        self.hst.insert(h.to_string(), "dropped".into());
+        Ok(())
+    }
+
+    /// Winds everything down, whatever state the behaviour was left in.
+    async fn shutdown(mut self) {
+        {
+            let mut st = self.ctl.lock();
+            st.free_run = true;
+            for (_, (_, tx)) in st.parked.drain() {
+                let _ = tx.send(());
+            }
+            for (_, flag) in st.drop_parked.iter_mut() {
+                *flag = true;
+            }
+        }
+        self.ctl.cv.notify_all();
+        for (_, th) in self.drop_threads.drain() {
+            let _ = th.join();
+        }
+        // answer outstanding Subscribe calls so that every task can finish
+        for _ in 0..200 {
+            let mail: Vec<Mail> = self.ctl.lock().mailbox.drain(..).collect();
+            for m in mail {
+                if let Mail::Subscribe(reply) = m {
+                    let (to_tx, to_rx) = mpsc::channel(1);
+                    let (from_tx, _) = broadcast::channel(1);
+                    self.keep.push(to_rx);
+                    let _ = reply.send((to_tx, from_tx));
+                }
+            }
+            if self.tasks.iter().all(|t| t.is_finished()) {
+                break;
+            }
+            tokio::time::sleep(Duration::from_millis(1)).await;
+        }
+        for t in self.tasks.drain(..) {
+            t.abort();
+            let _ = t.await;
+        }
+        self.held.clear();
+        self.ctl.lock().finished.clear();
+        self.gossip = None; // sends Shutdown and drains the probe
+        self.actor.stop(None);
+        if let Some(j) = self.actor_join.take() {
+            let _ = tokio::time::timeout(Duration::from_secs(5), j).await;
+        }
+        let mut st = self.ctl.lock();
+        *st = CtlState::default();
+    }
+}
+
+pub fn run(args: &Args) {
+    match args.mode.as_str() {
+        "replay" => replay(args),
+        "record" => record(args),
+        _ => unknown(args),
+    }
+}
+
+fn runtime() -> tokio::runtime::Runtime {
+    tokio::runtime::Builder::new_multi_thread()
+        .worker_threads(2)
+        .enable_all()
+        .build()
+        .expect("runtime")
+}
+
+fn new_ctl() -> Arc<Ctl> {
+    let (ver, _) = watch::channel(0u64);
+    let ctl = Arc::new(Ctl {
+        st: Mutex::new(CtlState::default()),
+        cv: Condvar::new(),
+        ver,
+    });
+    install_controllers(&ctl);
+    ctl
+}
+
+fn strings(v: &Value) -> Vec<String> {
+    v.as_array()
+        .map(|a| a.iter().filter_map(|x| x.as_str().map(String::from)).collect())
+        .unwrap_or_default()
+}
+
+/// Compares the state TLC computed (`st`) with the implementation's observable.
+fn compare(st: &Value, obs: &Obs) -> Result<(), String> {
+    for (p, v) in &obs.pc {
+        let want = st["pc"][p].as_str().unwrap_or("?");
+        if want != v {
+            return Err(format!("stream() of {p}: specification {want}, implementation {v}"));
+        }
+    }
+    for (h, v) in &obs.hst {
+        let want = st["hst"][h].as_str().unwrap_or("?");
+        if want != v {
+            return Err(format!("handle {h}: specification {want}, implementation {v}"));
+        }
+    }
+    for (h, (cname, val)) in &obs.live {
+        let want_c = st["hctr"][h].as_str().unwrap_or("?");
+        let want_v = st["ctr"][want_c].as_u64().unwrap_or(u64::MAX);
+        if want_c != cname || want_v != *val as u64 {
+            return Err(format!(
+                "counter behind handle {h}: specification {want_c}={want_v}, implementation {cname}={val}"
+            ));
+        }
+    }
+    let want_writer = st["writer"].as_str().unwrap_or("none");
+    match &obs.senders {
+        Err(()) => {
+            if want_writer == "none" {
+                return Err("senders map is write-locked, specification has no writer".into());
+            }
+        }
+        Ok(entry) => {
+            if want_writer != "none" {
+                return Err(format!(
+                    "specification: {want_writer} holds the write lock of senders; implementation: not locked"
+                ));
+            }
+            let want_c = st["senders"]["ctr"].as_str().unwrap_or("?");
+            let want_v = st["senders"]["val"].as_i64().unwrap_or(-2);
+            let (got_c, got_v) = match entry {
+                None => ("none".to_string(), -1),
+                Some((c, v)) => (c.clone(), *v as i64),
+            };
+            if want_c != got_c || want_v != got_v {
+                return Err(format!(
+                    "senders entry: specification {want_c}={want_v}, implementation {got_c}={got_v}"
+                ));
+            }
+        }
+    }
+    let want_mail: Vec<(String, String)> = st["mailbox"]
+        .as_array()
+        .map(|a| {
+            a.iter()
+                .map(|m| {
+                    (
+                        m["t"].as_str().unwrap_or("?").to_string(),
+                        m["by"].as_str().unwrap_or("?").to_string(),
+                    )
+                })
+                .collect()
+        })
+        .unwrap_or_default();
+    if want_mail != obs.mailbox {
+        return Err(format!(
+            "manager mailbox: specification {want_mail:?}, implementation {:?}",
+            obs.mailbox
+        ));
+    }
+    let want_session = st["session"].as_str().unwrap_or("?");
+    if want_session != obs.session {
+        return Err(format!(
+            "manager session: specification {want_session}, implementation {}",
+            obs.session
+        ));
+    }
+    let want_orphans: BTreeSet<String> = strings(&st["orphans"]).into_iter().collect();
+    if want_orphans != obs.orphans {
+        return Err(format!(
+            "lost sessions: specification {want_orphans:?}, implementation {:?}",
+            obs.orphans
+        ));
+    }
+    Ok(())
+}
+
+fn replay(args: &Args) {
+    let behaviours = read_ndjson(args.input.as_ref().expect("--in"));
+    let mut out = Outcome::new(
+        args,
+        "distinct = behaviours with a different sequence of (action, process) steps; every behaviour has at least one stream() call, one Subscribe and one drop",
+    );
+    let rt = runtime();
+    let ctl = new_ctl();
+    rt.block_on(async {
+        let address_book = AddressBook::builder().spawn().await.expect("address book");
+        for b in &behaviours {
+            out.eval();
+            let steps = b["steps"].as_array().cloned().unwrap_or_default();
+            let split_drop = b["defects"]["split_drop"].as_bool().unwrap_or(false);
+            let key: Vec<String> = steps
+                .iter()
+                .map(|s| format!("{}({}{})", s["a"].as_str().unwrap_or(""), s["p"].as_str().unwrap_or(""), s["k"].as_str().unwrap_or("")))
+                .collect();
+            out.mark_distinct(key.join(">"));
+            let mut w = World::new(&ctl, &address_book, strings(&b["procs"]), strings(&b["clones"])).await;
+            let mut diverged: Option<(String, String)> = None;
+            for (i, s) in steps.iter().enumerate() {
+                let a = s["a"].as_str().unwrap_or("");
+                let p = s["p"].as_str().unwrap_or("");
+                let k = s["k"].as_str().unwrap_or("");
+                out.count(a);
+                let r = w.apply(a, p, k, split_drop).await;
+                let obs = w.observe();
+                w.check_backed(&obs);
+                if i + 1 == steps.len() {
+                    w.check_left(&obs);
+                }
+                if let Err(e) = r {
+                    diverged = Some((a.to_string(), format!("step {} {a}({p}{k}): {e}", i + 1)));
+                    break;
+                }
+                if let Err(e) = compare(&s["st"], &obs) {
+                    diverged = Some((a.to_string(), format!("after step {} {a}({p}{k}): {e}", i + 1)));
+                    break;
+                }
+            }
+            let failures = std::mem::take(&mut w.property_failures);
+            w.shutdown().await;
+            let mut seen = BTreeSet::new();
+            for (sig, detail) in failures {
+                if seen.insert(sig.clone()) {
+                    out.count(&format!("property:{sig}"));
+                    out.violation("C29", &sig, format!("{detail}; schedule: {}", key.join(" > ")), b.clone());
+                }
+            }
+            if let Some((a, detail)) = diverged {
+                out.violation(
+                    "C29",
+                    &format!("diverged:{a}"),
+                    format!("implementation and specification disagree {detail}; schedule: {}", key.join(" > ")),
+                    b.clone(),
+                );
+            } else {
+                out.sample(json!({"schedule": key}));
+            }
+        }
+    });
+    p2panda_core::verif::set_async_controller(None);
+    p2panda_core::verif::set_blocking_controller(None);
+    out.write(args);
+}
+
+// ------------------------------------------------------------------------------------------
+// record: seeded random schedules on the real code
+
+#[derive(Clone, Debug)]
+struct Move {
+    a: &'static str,
+    p: String,
+    k: String,
+}
+
+fn enabled_moves(w: &mut World, split_drop: bool) -> Vec<Move> {
+    let obs = w.observe();
+    let mut moves = Vec::new();
+    let reader_parked = obs.pc.values().any(|v| v == "atA");
+    let write_locked = obs.senders.is_err();
+    for (p, pc) in &obs.pc {
+        let m = |a: &'static str| Move { a, p: p.clone(), k: String::new() };
+        match pc.as_str() {
+            // a call that has to wait for the lock is a call that has not taken its step yet
+            "idle" if !write_locked => moves.push(m("ReadSenders")),
+            "atA" => moves.push(m("CloneGuard")),
+            "atW" if !write_locked && !reader_parked => moves.push(m("AcquireWrite")),
+            "atB" => moves.push(m("CallSubscribe")),
+            "atC" if !reader_parked => moves.push(m("InsertSenders")),
+            _ => {}
+        }
+    }
+    if !obs.mailbox.is_empty() {
+        moves.push(Move { a: "ActorStep", p: String::new(), k: String::new() });
+    }
+    let next_clone = w.clones.iter().find(|k| obs.hst[*k] == "none").cloned();
+    for (h, st) in &obs.hst {
+        match st.as_str() {
+            "live" => {
+                moves.push(Move { a: "FetchSub", p: h.clone(), k: String::new() });
+                if let (Some(k), Some(Held::Handle(_))) = (&next_clone, w.held.get(h)) {
+                    moves.push(Move { a: "CloneHandle", p: h.clone(), k: k.clone() });
+                }
+            }
+            "fetched" if split_drop => moves.push(Move { a: "SendUnsub", p: h.clone(), k: String::new() }),
+            _ => {}
+        }
+    }
+    moves
+}
+
+fn record(args: &Args) {
+    let mut out = Outcome::new(
+        args,
+        "distinct = recorded runs with a different sequence of (action, process) steps; every run has at least two stream() calls racing with drops",
+    );
+    let mut tw = TraceWriter::create(args.out.as_ref().expect("--out"));
+    let mut rng = Rng::new(args.seed);
+    let n = if args.n == 0 { 50 } else { args.n };
+    let nprocs = args.extra_usize("procs", 3);
+    let nclones = args.extra_usize("clones", 2);
+    let split_drop = args.extra.get("split_drop").map(|v| v == "true").unwrap_or(false);
+    let rt = runtime();
+    let ctl = new_ctl();
+    rt.block_on(async {
+        let address_book = AddressBook::builder().spawn().await.expect("address book");
+        for run in 0..n {
+            out.eval();
+            let procs: Vec<String> = (1..=nprocs).map(|i| format!("s{i}")).collect();
+            let clones: Vec<String> = (1..=nclones).map(|i| format!("k{i}")).collect();
+            let mut w = World::new(&ctl, &address_book, procs.clone(), clones.clone()).await;
+            tw.event(json!({"ev": "Reset", "run": run, "procs": procs, "clones": clones}));
+            let mut key = Vec::new();
+            let mut stuck: Option<String> = None;
+            // some runs keep a handle alive for a long time, others drop eagerly
+            let drop_weight = rng.range(1, 4);
+            for _ in 0..200 {
+                let moves = enabled_moves(&mut w, split_drop);
+                if moves.is_empty() {
+                    break;
+                }
+                let weights: Vec<u64> = moves
+                    .iter()
+                    .map(|m| match m.a {
+                        "FetchSub" => drop_weight,
+                        "CloneHandle" => 1,
+                        _ => 3,
+                    })
+                    .collect();
+                let total: u64 = weights.iter().sum();
+                let mut pick = rng.below(total);
+                let mut idx = 0;
+                for (i, wgt) in weights.iter().enumerate() {
+                    if pick < *wgt {
+                        idx = i;
+                        break;
+                    }
+                    pick -= wgt;
+                }
+                let m = moves[idx].clone();
+                out.count(m.a);
+                if let Err(e) = w.apply(m.a, &m.p, &m.k, split_drop).await {
+                    stuck = Some(format!("{}({}{}): {e}", m.a, m.p, m.k));
+                    break;
+                }
+                let obs = w.observe();
+                w.check_backed(&obs);
+                key.push(format!("{}({}{})", m.a, m.p, m.k));
+                let mut ev = obs.to_json();
+                ev["ev"] = json!(m.a);
+                ev["p"] = json!(m.p);
+                ev["k"] = json!(m.k);
+                tw.event(ev);
+            }
+            let obs = w.observe();
+            w.check_left(&obs);
+            out.mark_distinct(key.join(">"));
+            let failures = std::mem::take(&mut w.property_failures);
+            w.shutdown().await;
+            let case = json!({"seed": args.seed, "run": run, "schedule": key});
+            let mut seen = BTreeSet::new();
+            for (sig, detail) in failures {
+                if seen.insert(sig.clone()) {
+                    out.count(&format!("property:{sig}"));
+                    out.violation("C29", &sig, format!("{detail}; schedule: {}", key.join(" > ")), case.clone());
+                }
+            }
+            if let Some(e) = stuck {
+                out.violation("C29", "stuck", format!("the real code did not take an enabled step: {e}"), case);
+                break;
+            } else {
+                out.sample(case);
+            }
+        }
+    });
+    p2panda_core::verif::set_async_controller(None);
+    p2panda_core::verif::set_blocking_controller(None);
+    let (events, runs) = tw.finish();
+    out.set_trace(events, runs);
+    out.write(args);
 }
